@@ -75,6 +75,15 @@ def run_property(pid, tier, write=True, root=None):
                 for vid in summ["failed"]:
                     rep.unk("SELFTEST", {"file": "sverif/catalogue.py", "line": 0, "function": "-", "construct": vid},
                             "checker self-validation failed on variant %s: the rule set does not behave as documented" % vid)
+            # rewrites that keep another property intact keep this one intact as well: no alarm on any of them
+            cross = selftest.run_cross(pid)
+            alarms = [r["id"] for r in cross if r["outcome"] == "FAILED"]
+            summ["cross_silent"] = {"applied": sum(1 for r in cross if r["outcome"] != "skipped"), "alarms": alarms,
+                                    "inconclusive": [r["id"] for r in cross if r.get("code") == 2]}
+            for vid in alarms:
+                if base_clean:
+                    rep.unk("SELFTEST", {"file": "sverif/catalogue.py", "line": 0, "function": "-", "construct": vid},
+                            "false alarm: the behaviour-preserving variant %s (written for another property) makes this check report a violation" % vid)
             # detection regression: every stored seeded change that this property's check caught must still be caught
             try:
                 lost, n_seed = seed_regression(pid, prog.root)
